@@ -896,7 +896,12 @@ func (c *CaseItem) End() Pos {
 	if c.OpPos.IsValid() {
 		return posAddCol(c.OpPos, len(c.Op.String()))
 	}
-	return stmtsEnd(c.Stmts, c.Last)
+	if end := stmtsEnd(c.Stmts, c.Last); end.IsValid() {
+		return end
+	}
+	// No operator, statements, nor comments, like the last item in
+	// "case x in a) esac"; the patterns are all we have.
+	return wordLastEnd(c.Patterns)
 }
 
 // TestClause represents a Bash extended test clause.
